@@ -59,7 +59,7 @@ def proj_spec(t):
 def t1(ctx, exe, c0, names, cap=None):
     lines, expect, mismatching = [], [], set()
     rnd = random.Random(ctx.seed + 51)
-    dumps = adtb.tlc_edges_many(ctx, MC, [('edges_' + n, EDGE_CFG % dict(EDGE_CONFIGS[n], c0=c0)) for n in names])
+    dumps = adtb.tlc_edges_many(ctx, MC, [('edges_' + n, EDGE_CFG % dict(EDGE_CONFIGS[n], c0=c0)) for n in names], workers=4 if ctx.thorough else 1)
     for name, (edges, r) in zip(names, dumps):
         todo, nstates = adtb.edge_paths(edges, lambda s: s['entries'] == [] and s['now'] == 0)
         total = len(todo)
@@ -155,7 +155,7 @@ def run(ctx):
     n_t1 = len(lines)
     # 3. T2
     rnd = random.Random(ctx.seed * 7919 + 51)
-    nh, nops = (1200, 400) if ctx.thorough else (120, 250)
+    nh, nops = (800, 400) if ctx.thorough else (120, 250)
     t2s = [gen_history(rnd, c0, nops) for _ in range(nh)]
     hs = adtb.run_histories(ctx, exe, t2s)
     for h in hs:
